@@ -140,6 +140,17 @@ func buildOps() []op {
 				return n(p) + ".G[" + arg + ",int]"
 			}})
 	}
+	// instantiations whose package-qualified argument comes AFTER an unqualified one, or after another
+	// qualified one, or nested behind a leaf
+	for _, pr := range [][2]string{{"a/b", "x/b"}, {"fmt", "foo/fmt"}, {"b", "c/a/b"}} {
+		p, q := pr[0], pr[1]
+		ops = append(ops, op{"generic-late-arg", []string{p, q}, func() snippet.Snippet { return snippet.ID(p + ".G[string," + q + ".T]") },
+			func(n func(string) string) string { return n(p) + ".G[string," + n(q) + ".T]" }})
+		ops = append(ops, op{"generic-two-args", []string{p, p, q}, func() snippet.Snippet { return snippet.ID(p + ".G[" + p + ".K," + q + ".V]") },
+			func(n func(string) string) string { return n(p) + ".G[" + n(p) + ".K," + n(q) + ".V]" }})
+		ops = append(ops, op{"generic-nested-late", []string{p, p, q}, func() snippet.Snippet { return snippet.ID(p + ".G[int," + p + ".L[bool," + q + ".V]]") },
+			func(n func(string) string) string { return n(p) + ".G[int," + n(p) + ".L[bool," + n(q) + ".V]]" }})
+	}
 	for _, pr := range [][2]string{{"a/b", "x/b"}, {"y/x/b", "b"}, {"k8s.io/api/core/v1", "k8s.io/apis/core/v1"}} {
 		p, q := pr[0], pr[1]
 		ops = append(ops, op{"typelit", []string{p, q}, func() snippet.Snippet {
